@@ -11,10 +11,14 @@ R3 join before use of handler-written state (caller role), with the no-pool edge
 R4 ordered dispatch at the writer; one result thread per handler.
 R5 bounded worker creation.   R6 exactly one delivery per result.
 R7 thread exits.              R8 queue tail discipline.
+R9 no nested use of a pool from inside a pool job: code reachable from a work function or a result
+   callback never gives a (non-NULL) pool to a writer or sorter it creates - a job that waits for a
+   slot of the pool it occupies hangs as soon as all slots hold such jobs.
 """
 import re
 from .common import *
 from mtblcheck import effects as FX
+from mtblcheck.facts import is_null
 
 EXPLANATION = ("static lockset / typestate / effect rules over mtbl/threadpool.c and its two users: must-lockset dataflow, "
                "condition-variable predicate-store discipline against T-cv, lock pairing and class nesting, join-before-use of "
@@ -40,6 +44,7 @@ def run(ctx, res):
     r2_locks(ctx, res, Tl)
     r3_join(ctx, res)
     r4_r8(ctx, res)
+    r9_nested(ctx, res)
 
 
 # ---------------------------------------------------------------------------------------------
@@ -697,3 +702,59 @@ def r4_r8(ctx, res):
             res.check(bool(okp), "C13.R8", site(g, "remove"), "when a removal empties the queue the tail is re-anchored at head before the mutex is released",
                       "after the queue is emptied the tail pointer keeps pointing into the removed node: the next ordered dispatch appends to a node "
                       "that is no longer on the queue and its result is never delivered", g.loc(n))
+
+
+# ---------------------------------------------------------------------------------------------
+POOL_SETTERS = ("mtbl_writer_options_set_threadpool", "mtbl_sorter_options_set_threadpool")
+
+
+def _pool_handed_on(funcs):
+    """(function, call) for every call that configures a nested object with a pool that is not the constant NULL."""
+    out = []
+    for f in funcs:
+        for c in f.calls(set(POOL_SETTERS)):
+            a = call_args(c)
+            if len(a) >= 2 and not is_null(a[1]) and const_val(a[1]) != 0:
+                out.append((f, c))
+        for n, lhs in field_stores(f):
+            if lhs["field"] == "pool" and lhs.get("rec") in ("mtbl_writer_options", "mtbl_sorter_options") and \
+                    not is_null(n["kids"][1]) and const_val(n["kids"][1]) != 0 and f.name not in POOL_SETTERS:
+                out.append((f, n))
+    return out
+
+
+def r9_nested(ctx, res):
+    prog = ctx.prog
+    cg = ctx.cg
+    res.floor("C13.R9", 2)
+    from mtblcheck.facts import is_null  # noqa
+    roots = {}
+    for (callee, idx), names in cg.param_funcs.items():
+        if (callee, idx) in (("threadpool_dispatch", 3), ("result_handler_init", 0)):
+            for nm in names:
+                roots[nm] = "work function" if callee == "threadpool_dispatch" else "result callback"
+    if len(roots) < 3:
+        raise BrokenAnalysis("callback registries of the pool found only %s" % sorted(roots))
+    for nm, role in sorted(roots.items()):
+        keys = [k for k in cg.funcs if k[1] == nm]
+        if not keys:
+            raise BrokenAnalysis("callback %s has no body" % nm)
+        reach = cg.reachable(keys)
+        fs = []
+        seen = set()
+        for k in reach:
+            f = cg.funcs[k]
+            if (f.file, f.line) not in seen:
+                seen.add((f.file, f.line))
+                fs.append(f)
+        hits = _pool_handed_on(fs)
+        for f, c in hits:
+            res.bad("C13.R9", site(f, "pool-handed-on-inside-job:%s" % nm),
+                    "%s runs inside the pool job `%s` (%s) and configures the object it creates with a pool: its blocks are dispatched to the pool "
+                    "whose slot the job itself occupies; with every slot held by such a job nobody can run them and the wait never ends"
+                    % (f.name, nm, role), f.loc(c))
+        if not hits:
+            res.ok("C13.R9", "%s:no-nested-pool" % nm, "none of the %d functions reachable from this %s hands a pool to a nested writer or sorter" % (len(fs), role))
+    pos = ctx.pos_example("c13_nested_pool.c")
+    if len(_pool_handed_on(pos)) != 2:
+        raise BrokenAnalysis("nested-pool matcher reports %d of the 2 constructs of its positive example" % len(_pool_handed_on(pos)))
